@@ -7,7 +7,7 @@
    statements that SQLite rejects or accepts depending on foreign-key enforcement, multi-statement and
    transactional requests, and whole-database loads.  The driver issues exactly these statements. *)
 From Coq Require Import List String Ascii Bool NArith.
-From RQ Require Import Lib.C33_Log.
+From RQ Require Export Lib.C33_Log.
 Import ListNotations.
 Open Scope string_scope.
 Open Scope N_scope.
